@@ -564,6 +564,55 @@ Proof.
       apply nth_error_Some in Hsome. rewrite map_length in Hsome. lia.
 Qed.
 
+(* ---- store_exact: with an injective key function the store holds, for every URL, exactly the
+   strongest type it was checked as so far (nothing for a URL never checked) ---- *)
+Definition join (a c : option kind) : option kind :=
+  match a, c with
+  | None, x | x, None => x
+  | Some KAsset, Some KAsset => Some KAsset
+  | Some _, Some _ => Some KSeed
+  end.
+
+Fixpoint strongest (u : N) (ws : list (N * kind)) : option kind :=
+  match ws with
+  | [] => None
+  | (u', ty) :: r => if N.eqb u' u then join (Some ty) (strongest u r) else strongest u r
+  end.
+
+Lemma join_assoc a b c : join (join a b) c = join a (join b c).
+Proof. destruct a as [[|]|], b as [[|]|], c as [[|]|]; reflexivity. Qed.
+
+Lemma join_none_r a : join a None = a.
+Proof. destruct a as [[|]|]; reflexivity. Qed.
+
+Definition store_exact_stmt : Prop :=
+  forall (hash : N -> N) (U : N -> Prop),
+  (forall u v, U u -> U v -> hash u = hash v -> u = v) ->
+  forall (h : list op) (u : N),
+  U u -> (forall u' ty, In (u', ty) (flat_map op_work h) -> U u') ->
+  lookup (hash u) (run hash [] h) = strongest u (flat_map op_work h).
+
+Lemma check_list_exact (hash : N -> N) (U : N -> Prop) :
+  (forall u v, U u -> U v -> hash u = hash v -> u = v) ->
+  forall ws s u, U u -> (forall u' ty, In (u', ty) ws -> U u') ->
+  lookup (hash u) (fst (check_list hash s ws)) = join (lookup (hash u) s) (strongest u ws).
+Proof.
+  intros Hinj. induction ws as [|[u0 ty0] ws IH]; intros s u Hu HU.
+  - simpl. symmetry. apply join_none_r.
+  - rewrite check_list_cons. cbn [fst]. rewrite IH; [|exact Hu|intros u' ty Hin; apply (HU u' ty); right; exact Hin].
+    cbn [strongest]. destruct (N.eqb_spec u0 u) as [->|Hne].
+    + rewrite check_one_recorded, <- join_assoc. f_equal.
+      destruct (lookup (hash u) s) as [[|]|], ty0; reflexivity.
+    + rewrite check_one_other; [reflexivity|]. intros He. apply Hne. symmetry.
+      apply Hinj; [exact Hu|apply (HU u0 ty0); left; reflexivity|exact He].
+Qed.
+
+Lemma store_exact_lemma : store_exact_stmt.
+Proof.
+  intros hash U Hinj h u Hu HU. rewrite run_store.
+  rewrite (check_list_exact hash U Hinj _ [] u Hu HU). reflexivity.
+Qed.
+
 (* ================================================================================== *)
 (* preprocess                                                                          *)
 (* ================================================================================== *)
@@ -826,6 +875,11 @@ Definition ex_hist : list op := [OPre (leaf 0 20 Fresh); OPre ex_page; OReopen; 
 
 Example ex_hist_store :
   map (fun u => lookup u (run hid [] ex_hist)) [20; 1; 7; 2; 4; 9; 3]
+  = [Some KSeed; Some KAsset; Some KAsset; None; None; Some KSeed; None].
+Proof. vm_compute. reflexivity. Qed.
+
+Example store_exact_nonvacuous :
+  map (fun u => strongest u (flat_map op_work ex_hist)) [20; 1; 7; 2; 4; 9; 3]
   = [Some KSeed; Some KAsset; Some KAsset; None; None; Some KSeed; None].
 Proof. vm_compute. reflexivity. Qed.
 
